@@ -19,6 +19,7 @@ import subprocess
 import tempfile
 import signal
 import importlib
+import random
 
 from contextlib import redirect_stdout
 from contextlib import contextmanager
@@ -223,6 +224,18 @@ exception, instead of calling exit.
 
     def _get_formatter(self):
         return CLIHelpFormatter(prog=self.prog)
+
+class SeedAction(argparse.Action):
+    """Seed the random generator as soon as the option is parsed
+
+Graph arguments may be built at random while the rest of the command
+line is parsed, therefore the generator must be seeded right when the
+seed option is met (global options come before the formula name).
+"""
+    def __call__(self, parser, args, values, option_string=None):
+        setattr(args, self.dest, values)
+        random.seed(values)
+
 
 def positive_int(value):
     errmsg = "{} was supposed to be a positive integer".format(value)
